@@ -172,10 +172,12 @@ var cfgErrClasses = []struct{ prefix, sub, class string }{
 	{"curve ", "only one curve type can be used", "curveMultiBackend"},
 	{"curve ", "sub-configuration for curve is missing", "curveNoBackend"},
 	{"curve ", "unsupported function type", "curveBadFnType"},
+	{"curve ", "function curves must reference at least one curve", "curveNoMembers"},
 	{"curve ", "a curve cannot reference itself", "curveSelfRef"},
 	{"curve ", "no curve definition with id", "curveNoCurve"},
 	{"curve ", "missing sensorId", "curveNoSensorId"},
 	{"curve ", "no sensor definition with id", "curveNoSensor"},
+	{"curve ", "steps must contain at least one entry", "curveEmptySteps"},
 	{"curve ", "all PID constants are zero", "curvePidZero"},
 	{"you have created a curve dependency cycle", "", "curveCycle"},
 	{"duplicate fan id detected", "", "dupFan"},
@@ -183,6 +185,7 @@ var cfgErrClasses = []struct{ prefix, sub, class string }{
 	{"fan ", "sub-configuration for fan is missing", "fanNoBackend"},
 	{"fan ", "missing curve definition in configuration entry", "fanNoCurveId"},
 	{"fan ", "no curve definition with id", "fanNoCurve"},
+	{"fan ", "controlAlgorithm must be one of", "fanEmptyAlgo"},
 	{"fan ", "invalid maxPwmChangePerCycle", "fanBadMaxPwmChange"},
 	{"fan ", "all PID constants are zero", "fanPidZero"},
 	{"fan ", "must have one of index or rpmChannel", "fanIndexXorRpm"},
